@@ -262,7 +262,19 @@ class Slicer:
         if isinstance(e, _Closure):
             return e.slicer.leaves(e.expr, path, e.env, seen, depth + 1)
         if isinstance(e, ast.Lambda):
-            return set()
+            # the value a callable produces: its body, with defaulted parameters (``lambda m, r=r: r``) bound to the defaults
+            env2 = dict(env)
+            a = e.args
+            pos = a.args
+            for p_, d_ in zip(pos[len(pos) - len(a.defaults):], a.defaults):
+                env2[p_.arg] = _Closure(d_, env, self)
+            for p_, d_ in zip(a.kwonlyargs, a.kw_defaults):
+                if d_ is not None:
+                    env2[p_.arg] = _Closure(d_, env, self)
+            bound = {p_.arg for p_ in pos[:len(pos) - len(a.defaults)]}
+            if isinstance(e.body, ast.Name) and e.body.id in bound:
+                return set()    # returns its own (match) argument
+            return self.leaves(e.body, path, env2, seen, depth + 1)
         return set()
 
     def _leaves_with_outer(self, e, path, env, outer: "Slicer", seen, depth) -> Set[str]:
